@@ -154,6 +154,7 @@ def gen_plan(seed, cfg):
             a, of, params, od, be = KERNELS[ki]
             v = 1 if rng.random() < (0.5 if palette is not None else 0.3) else 0
             ops.append({"op": "eval", "dst": dst, "kernel": ki, "variant": v,
+                        "private": be != "cffi" and not cold and rng.random() < 0.1,
                         "srcs": {p: pick_source(_vd(d, v), f) for p, d, f in params}})
             names[dst] = ("tensor", _vd(od, v), of, True)
         elif kind == "op" and tensors():
@@ -207,6 +208,10 @@ def gen_plan(seed, cfg):
     if cold and rng.random() < 0.4 and any(o["op"] == "eval" for o in ops):
         first_eval = min(i for i, o in enumerate(ops) if o["op"] == "eval")
         ops.insert(rng.randint(first_eval + 1, len(ops)), {"op": "cache_clear"})
+    # a flood of short-lived tensors of 140 distinct shapes while results are alive: whatever bounded
+    # table the ownership layer keeps per shape / format must not drop something that is still in use
+    if rng.random() < 0.04 and len(ops) >= 2:
+        ops.insert(rng.randint(1, len(ops)), {"op": "shape_flood", "n": 140, "base": rng.randint(1, 50)})
     # GC faults inside operations: (operation index, k-th counted trace line)
     p_gc = rng.choice([0.0, 0.2, 0.5, 1.0])
     faults = []
@@ -293,15 +298,45 @@ def _warm():
     for a, of, params, od, be in KERNELS:
         kw = {p: Tensor.from_aos([], [], dimensions=d, format=f) for p, d, f in params}
         _evaluate(a, of, be, kw)
+        if be != "cffi":
+            _evaluate(a, of, be, kw, private=True)
     gc.collect()
     SIM.heap.drain()
     _state["warm"] = True
 
 
-def _evaluate(a, of, be, kw):
+def _evaluate(a, of, be, kw, private=False):
     from tensora.compile import evaluate_cffi, evaluate_tensora
 
+    if private and be != "cffi":
+        m = _private_method(a, of, kw)
+        if m is not None:
+            return m(**kw)
     return (evaluate_cffi if be == "cffi" else evaluate_tensora)(a, of, **kw)
+
+
+def _private_method(a, of, kw):
+    """The compiled method of the same problem with its formats listed in ANOTHER order (inputs
+    first, target last), built through the Problem / TensorMethod layer: a legitimate, distinct
+    Problem (its equality includes the format order).  None if that layer is not there any more."""
+    try:
+        from tensora.compile import BackendCompiler
+        from tensora.compile._porcelain import cachable_tensor_method
+        from tensora.expression import parse_assignment
+        from tensora.format import parse_format
+        from tensora.problem import Problem
+    except Exception:
+        return None
+    pa = parse_assignment(a).unwrap()
+    tname = pa.target.name
+    fm = {}
+    for n, t in kw.items():
+        fm[n] = t.format
+    fm[tname] = parse_format(of).unwrap()
+    try:
+        return cachable_tensor_method(Problem(pa, fm), BackendCompiler.llvm)
+    except Exception:
+        return None
 
 
 def _counted_codes():
@@ -342,7 +377,8 @@ class Model:
                         snap[b.id] = self.heap.read(b)
                 else:
                     blocks.append((role, None))
-        self.logical[self.next_id] = {"blocks": blocks, "snap": snap, "origin": origin}
+        self.logical[self.next_id] = {"blocks": blocks, "snap": snap, "origin": origin,
+                                      "header": dec.header(cstruct)}
         return self.next_id
 
     def reachable(self):
@@ -447,6 +483,17 @@ class Run:
         for e in heap.check():
             props = ("C13",) if e[0] in ("double_free", "free_unknown") else ("C05",)
             self.viol(props, e[0], at, *e[1:])
+        # the header (dimensions, mode types, mode ordering) of every named tensor or struct still
+        # says what it said when the tensor was returned
+        for nm, (obj, lid) in list(m.names.items()):
+            c = obj.cffi_tensor if hasattr(obj, "cffi_tensor") else obj
+            try:
+                now = dec.header(c)
+            except Exception as ex:  # e.g. a garbage order
+                now = ("unreadable", type(ex).__name__)
+            if now != m.logical[lid]["header"]:
+                self.viol(("C02",), "header_of_reachable_tensor_changed", at, m.logical[lid]["origin"],
+                          list(m.logical[lid]["header"]), list(now))
         if before_ids is not None:
             # before_ids is the call id of the operation: whatever its kernel allocated and did not
             # hand back in its output must have been released by the kernel itself
@@ -678,7 +725,10 @@ class Run:
                         "name" in o["srcs"][p] and m.logical[held[o["srcs"][p]["name"]][1]]["blocks"]
                         for p, _, _ in params)
                     try:
-                        r = self.traced(lambda: _evaluate(a, of, be, kw), targets)
+                        priv = bool(o.get("private"))
+                        if priv:
+                            self.probe("evaluate_through_problem_with_target_listed_last")
+                        r = self.traced(lambda: _evaluate(a, of, be, kw, priv), targets)
                     except Exception as e:
                         # C13 says nothing about exceptions; C02 promises that a kernel output is
                         # usable as an input.  A failure on fresh inputs only is not ours to judge.
@@ -861,6 +911,16 @@ class Run:
                 del ent
             elif kind == "gc":
                 gc.collect()
+            elif kind == "shape_flood":
+                for j in range(o["n"]):
+                    d = o["base"] + j
+                    if j % 3 == 0:
+                        Tensor.from_aos([], [], dimensions=(d,), format="s")
+                    elif j % 3 == 1:
+                        Tensor.from_aos([], [], dimensions=(d, 2), format="ds")
+                    else:
+                        Tensor.from_aos([], [], dimensions=(2, d, 1), format="s2d0s1")
+                self.probe("shape_floods_while_results_alive" if m.names else "shape_floods")
             elif kind == "cache_clear":
                 from tensora.compile import _porcelain
 
